@@ -12,7 +12,8 @@ class CoverpointBinSingleWildcardModel(CoverpointBinModelBase):
         super().__init__(name)
         self.n_bins = 1
         self.wildcard_binspec = specs
-        pass
+        # Values that ignore/illegal bins remove from this bin (RangelistModel)
+        self.excluded = None
     
     def finalize(self, bin_idx_base : int) -> int:
         super().finalize(bin_idx_base)
@@ -29,6 +30,8 @@ class CoverpointBinSingleWildcardModel(CoverpointBinModelBase):
 
         # Process each value/mask pair
         self.hit_bin_idx = -1        
+        if self.excluded is not None and val in self.excluded:
+            return
         for s in self.wildcard_binspec.specs:
             if (val & s[1]) == (s[0] & s[1]):
                 self.hit_bin_idx = 0
@@ -46,10 +49,17 @@ class CoverpointBinSingleWildcardModel(CoverpointBinModelBase):
         
         if eq:
             eq &= self.wildcard_binspec.equals(oth.wildcard_binspec)
+            if (self.excluded is None) != (oth.excluded is None):
+                eq = False
+            elif self.excluded is not None:
+                eq &= self.excluded.equals(oth.excluded)
             
         return eq
     
     def clone(self):
-        return CoverpointBinSingleWildcardModel(
+        ret = CoverpointBinSingleWildcardModel(
             self.name, 
             self.wildcard_binspec.clone())
+        if self.excluded is not None:
+            ret.excluded = self.excluded.clone()
+        return ret
